@@ -555,7 +555,7 @@ func (e *env) runRevocationRace(j job) {
 		after := acked.Load()
 		var pn string
 		if offer {
-			pn = fmt.Sprintf(`PROBE {"kind":"offer","state":"racing-unpresent","perms":"full","expected":%v,"job":%q}`, !after, j.String())
+			pn = fmt.Sprintf(`PROBE {"kind":"offer","state":"racing-unpresent","perms":"full","expected":%v,"job":%q,"tag":%q}`, !after, j.String(), w.tag)
 			run.Note(pn)
 			w.logf("ACTOR -> offer %s (sent after the notification: %v)", id, after)
 			a.c.Send(vclient.Msg{"type": "offer", "id": id, "label": "camera", "source": a.c.ID, "sdp": e.offer})
